@@ -19,9 +19,9 @@
 // and in the thorough tier triples A i | B j | C k | <every order of the parked ones>, i, j in 0..2,
 // k in {0, 1, end}. A gate that is never reached (the operation finishes before its i-th load)
 // makes the schedule "not applicable" (it coincides with one that has a smaller index or "end"); it
-// is counted but not evaluated. A watchdog covers the case that the running operation waits for
-// something a parked one holds: the gate is then opened, everything runs free and the case is still
-// checked ("blocked"). After each schedule every operation's result is compared with the result the
+// is counted but not evaluated. When the running operation waits for something a parked one holds
+// (seen in its goroutine state after about 1.5 ms if that is a lock, by a watchdog otherwise) the gate
+// is opened, everything runs free and the case is still checked ("blocked"). After each schedule every operation's result is compared with the result the
 // same operation gives alone on a fresh node, and every operation is then run again, sequentially,
 // on the SAME shared node and compared again (a corrupted memo persists in the node).
 //
@@ -40,9 +40,11 @@ import (
 	"fmt"
 	"io"
 	"math/rand"
+	"runtime"
 	"strconv"
 	"strings"
 	"sync"
+	"sync/atomic"
 	"testing"
 	"time"
 
@@ -91,6 +93,7 @@ type gActor struct {
 	loads  []string      // requested blocks (gate.mu)
 	resume chan struct{} // controller -> parked actor
 	result string        // written by the actor before its evDone
+	goid   atomic.Int64  // the actor's goroutine, for lockWait
 }
 
 type gGate struct {
@@ -172,6 +175,39 @@ func (e *gExplorer) reify(s *gSubject, g *gGate) datamodel.Node {
 	return rn
 }
 
+// curGoid is the id of the calling goroutine ("goroutine 12 [running]:").
+func curGoid() int64 {
+	var buf [64]byte
+	f := strings.Fields(string(buf[:runtime.Stack(buf[:], false)]))
+	if len(f) < 2 {
+		return 0
+	}
+	id, _ := strconv.ParseInt(f[1], 10, 64)
+	return id
+}
+
+var stackBuf = make([]byte, 1<<17) // controller only
+
+// lockWait reports whether the goroutine is waiting for a mutex, a sync.Once or a semaphore. While
+// a schedule is gated no other operation runs, so whoever holds what it waits for is parked.
+func lockWait(id int64) bool {
+	all := stackBuf[:runtime.Stack(stackBuf, true)]
+	key := []byte(fmt.Sprintf("goroutine %d [", id))
+	for off := 0; ; {
+		i := bytes.Index(all[off:], key)
+		if i < 0 {
+			return false
+		}
+		i += off
+		off = i + len(key)
+		if i > 0 && all[i-1] != '\n' {
+			continue
+		}
+		st := all[off:]
+		return bytes.HasPrefix(st, []byte("sync.Mutex.Lock")) || bytes.HasPrefix(st, []byte("sync.RWMutex.")) || bytes.HasPrefix(st, []byte("semacquire"))
+	}
+}
+
 func guarded(op *gOp, n datamodel.Node) (res string) {
 	defer func() {
 		if p := recover(); p != nil {
@@ -195,6 +231,7 @@ func (e *gExplorer) execute(s *gSubject, ops []*gOp, segs []gSeg) (out, naSeg in
 		a.state = gRunning
 		go func() {
 			defer func() { g.events <- gEvent{a.idx, evDone} }()
+			a.goid.Store(curGoid())
 			a.result = guarded(a.op, node)
 		}()
 	}
@@ -235,7 +272,27 @@ func (e *gExplorer) execute(s *gSubject, ops []*gOp, segs []gSeg) (out, naSeg in
 			a.state = gRunning
 			a.resume <- struct{}{}
 		}
-		ev, ok := wait(e.watchdog)
+		// wait for the actor to park or finish. An actor that waits for a lock a parked one holds is
+		// recognised by its goroutine state within a few milliseconds; the watchdog covers the rest.
+		var ev gEvent
+		ok := false
+		for tick, spent, inLock := 500*time.Microsecond, time.Duration(0), 0; ; {
+			if ev, ok = wait(tick); ok {
+				break
+			}
+			spent += tick
+			if id := a.goid.Load(); id != 0 && lockWait(id) {
+				inLock++
+			} else {
+				inLock = 0
+			}
+			if inLock >= 2 || spent >= e.watchdog {
+				break
+			}
+			if tick < 50*time.Millisecond {
+				tick *= 2
+			}
+		}
 		if !ok {
 			out = outBlocked
 			break
